@@ -57,6 +57,7 @@ pub fn to_json(n: &Node) -> Value {
         GroupExists(g) => json!(["GroupExists", g]),
         Flags(on, off, c) => json!(["Flags", on, off, to_json(c)]),
         SetFlags(on, off) => json!(["SetFlags", on, off]),
+        Raw(p, ci) => json!(["Raw", p, ci]),
     }
 }
 
@@ -103,6 +104,7 @@ pub fn from_json(v: &Value) -> Option<Node> {
         "CondGroup" => CondGroup(num(1)?, bx(2)?, bx(3)?),
         "CondExpr" => CondExpr(bx(1)?, bx(2)?, bx(3)?),
         "GroupExists" => GroupExists(num(1)?),
+        "Raw" => Raw(a.get(1)?.as_str()?.to_string(), a.get(2)?.as_bool()?),
         "SetFlags" => SetFlags(a.get(1)?.as_str()?.to_string(), a.get(2)?.as_str()?.to_string()),
         "Flags" => Flags(a.get(1)?.as_str()?.to_string(), a.get(2)?.as_str()?.to_string(), bx(3)?),
         _ => return None,
